@@ -4,6 +4,7 @@ mod genx;
 mod head;
 mod hostile;
 mod mp;
+mod proxy;
 mod sendloop;
 mod transport;
 mod util;
@@ -129,6 +130,7 @@ fn run_all(kind: &str, input: &str, outdir: &str, threads: usize, budget: Durati
                             },
                             "hostile" => hostile::run(&sc),
                             "loop" => sendloop::run(&sc),
+                            "proxy" => proxy::run(&sc),
                             "charset" => {
                                 if util::gs(&sc, "kind") == "charset" {
                                     let thorough = std::env::var("VERIF_TIER").map(|t| t == "thorough").unwrap_or(false);
